@@ -10,7 +10,11 @@ import vlib
 from vlib import enc_str, enc_list, dec_list, dec_str
 
 THEOREMS = ["C06_tables", "C06_truth", "C06_truth_absent", "C06_eval", "C06_and_of_ors",
-            "C06_total", "C06_nonvacuous"]
+            "C06_total", "C06_nonvacuous",
+            # index-faithful model (CondIx.v): slice / index / i32-counter arithmetic with explicit Panic
+            "C06_ix_total", "C06_ix_refines"]
+# further theorems about the index-faithful model, in props/C06ix.v (own module: its Print Assumptions run goes in parallel)
+IX_THEOREMS = ["C06_ix_terminates", "C06_ix_eval", "C06_ix_checked", "C06_ix_bounds_exact", "C06_ix_dispatch"]
 ALPHA = ["true", "false", "and", "or", "(", ")", "", "0", "no", "NO", "False", "x"]
 CORE = ["true", "false", "and", "or", "(", ")"]
 KEYWORDS = {"and", "or", "(", ")"}
@@ -63,8 +67,8 @@ def all_trees(max_atoms, vals):
 
 def run(ck):
     ck.gen_from_source()
-    ok, _ = ck.coq_build(["props/C06.vo", "extract/C06_extract.vo"])
-    ck.print_assumptions(["DSP.C06"], ["DSP.C06." + t for t in THEOREMS])
+    ok, _ = ck.coq_build(["props/C06.vo", "props/C06ix.vo", "extract/C06_extract.vo"])
+    ck.print_assumptions(["DSP.C06", "DSP.C06ix"], ["DSP.C06." + t for t in THEOREMS] + ["DSP.C06ix." + t for t in IX_THEOREMS])
     ck.hygiene()
     ck.ocaml_build()
     ck.harness_build(["c06"])
@@ -77,6 +81,13 @@ def run(ck):
     # corpus: witnesses of past findings, always first
     tcases.append(["(", "false", ")", "or", "true"])                 # F1
     tcases.append(["(", "(", "false", ")", ")", "or", "true", "and", "(", ")", "or", "x"])
+    # deep and wide groups: the sub-slice index arithmetic (start_block / index / counter) at depth
+    for d in (40, 300):
+        tcases.append(["("] * d + ["true"] + [")"] * d)
+        tcases.append(["x", "and"] + ["("] * d + ["false", "or", "(", ")", "or", "no"] + [")"] * d + ["or", "(", "1", ")"])
+        tcases.append(["("] * d + ["true"] + [")"] * (d - 1))            # Missing ')'
+        tcases.append(["("] * d + ["true"] + [")"] * (d + 1))            # Unexpected ')'
+        tcases.append((["(", "true", ")", "and"] * d) + ["(", "(", "0", ")", "or", "y", ")"])
     n_alpha = 5 if thorough else 4
     n_core = 7 if thorough else 6
     for n in range(1, n_alpha + 1):
@@ -121,6 +132,16 @@ def run(ck):
         else:
             ck.broken.append("lower-casing fact: " + low)
         nontriv = set()
+        # the model verdict is the index-faithful model's; its driver also evaluates the suffix model and the
+        # overflow-checked index model (the harness's build profile), which the refinement theorems say agree
+        ck.obligations.append("index-faithful (wrapping and overflow-checked) and suffix models agree on every case (C06_ix_refines, C06_ix_checked)")
+        ixdiff = [(t, m) for t, m in zip(tcases, m_t) if m.startswith("IXDIFF")] + \
+                 [(tr, m) for tr, m in zip(trees, m_c) if "IXDIFF" in m]
+        if ixdiff:
+            ck.broken.append("index model / suffix model disagree on %r: %s" % ixdiff[0])
+        else:
+            ck.discharged.append("index-faithful (wrapping and overflow-checked) and suffix models agree")
+        n_groups = sum(1 for t in tcases if "(" in t and ")" in t)
         for k, (t, m, i) in enumerate(zip(tcases, m_t, i_t)):
             dist[m[:1]] = dist.get(m[:1], 0) + 1
             if len(t) >= 3 and m in ("T", "F"):
@@ -130,7 +151,7 @@ def run(ck):
                 found = True
                 ck.violation({"kind": "model-vs-implementation", "tokens": t, "wire": t_lines[k],
                               "model": m, "implementation(not,if,elseif,while)": i,
-                              "theorems": ["C06_eval", "C06_total"], "seed": ck.seed,
+                              "theorems": ["C06_eval", "C06_total", "C06_ix_total", "C06_ix_refines"], "seed": ck.seed,
                               "replay_cmd": "printf '%s\\n' | .cache/cargo-target/release/c06" % t_lines[k].replace("\t", "\\t")})
                 if len(ck.violations) >= 5:
                     break
@@ -160,6 +181,9 @@ def run(ck):
             "exhaustive_part": {"token_sequences": n_exh, "trees": n_tree_exh},
             "samples": [tcases[0], tcases[n_exh // 2], " ".join(trees[0]), " ".join(trees[-1])],
             "verdict_distribution": dist,
+            "model_run": "index-faithful CondIx.eval_slice_ix (release profile) — cross-checked per case against the "
+                         "overflow-checked index model (the harness's build profile) and the suffix model Cond.eval_slice",
+            "token_lists_with_a_group": n_groups,
         })
     else:
         ck.coverage.update({"evaluations": 0, "distinct_nontrivial": 0, "rule": "model did not build", "samples": []})
@@ -167,7 +191,10 @@ def run(ck):
     ck.assumptions += [
         "Rust's to_lowercase agrees with ASCII lower-casing on the question 'is the result one of the falsy literals' "
         "(checked for all 1,112,064 scalar values on every run, harness c06 LOWER)",
-        "slice index arithmetic of the group sub-slice is abstracted by collecting the group's tokens (no-panic covered by the correspondence run only)",
+        "the i32 `counter` of eval_condition_for_slice cannot overflow below 2^31 tokens: the index-faithful model equals the "
+        "suffix model there in both build profiles (C06_ix_refines, C06_ix_checked); beyond it the release build wraps "
+        "(still no panic: C06_ix_total holds for every length) and the debug build panics on `counter + 1` (needs >= 48 GiB of arguments; not testable)",
+        "eval_condition's command branch (eval_with_instructions) enters the dispatch model as a function argument (C06_ix_dispatch assumes it does not panic)",
         "the first token is not a registered command (otherwise the statement is evaluated as a command call: C09)",
     ]
 
